@@ -17,6 +17,7 @@ of `In`, `Vm.sliceBound` vs `Tera.sliceBound`, `lookupName` vs the `__tera_conte
 that glue is what these lemmas relate.
 -/
 import TeraModel.Lemmas.RefineRun
+set_option linter.unusedSimpArgs false
 namespace Tera.Refine
 open Tera Tera.Vm Tera.Compiler
 
